@@ -25,42 +25,28 @@ theorem type_codes_distinct (a b : MClass) (h : a.code = b.code) : a = b := code
 /-- T20.3: for every media type string (and `None`) the class computed by the ladder of the code — lists, the two
 regexes under `re.I|re.S|re.X`, the literals — is the documented one: the three application/xml names or
 `application/…+xml…`; the two text/xml names or `text/…+xml…`; `text/html`; `text/css`; any other `text/…`;
-otherwise (and for an absent / empty media type) other — after `strip().lower()`.
-Guard: the media type is not the regex source text `text\/.*?\+xml` itself (see the counterexample below). -/
-theorem classification_spec (mt : Option Cps) (h : NotRegexLiteral mt) :
-    textTypeByMediaType mt = (specClass mt).code :=
-  classify_spec mt h
+otherwise (and for an absent / empty media type) other — after `strip().lower()`. No guard (full strength since
+the fix "do not take the media-type pattern text for a media type"). -/
+theorem classification_spec (mt : Option Cps) : textTypeByMediaType mt = (specClass mt).code :=
+  classify_spec mt
 
-/- Full statement (without the guard) — FALSE on the current tree, see `classification_regex_literal`:
-   theorem classification_spec_full (mt : Option Cps) : textTypeByMediaType mt = (specClass mt).code -/
-
-/-- the machine-checked finding behind the guard: the regex source string `text\/.*?\+xml`, used as a media type,
-is classified as text/xml family although it does not even start with `text/` (it is `in xml_text_types`) -/
+/-- the former finding C20-regex-literal-media-type, now the other way round: the regex source string
+`text\/.*?\+xml` used as a media type is not a text type at all -/
 theorem classification_regex_literal :
-    textTypeByMediaType (some textRegexLiteral) = MClass.textXml.code ∧ specClass (some textRegexLiteral) = .other := by
+    textTypeByMediaType (some textRegexLiteral) = MClass.other.code ∧ specClass (some textRegexLiteral) = .other := by
   decide
 
-/-- T20.3 totality: every media type gets one of the six classes (no guard) -/
-theorem classification_total (mt : Option Cps) : ∃ c : MClass, textTypeByMediaType mt = c.code := by
-  match mt with
-  | none => exact ⟨.other, rfl⟩
-  | some [] => exact ⟨.other, rfl⟩
-  | some (c :: t) =>
-    by_cases hm : lower (strip (c :: t)) = textRegexLiteral
-    · refine ⟨.textXml, ?_⟩
-      simp only [textTypeByMediaType, hm]
-      decide
-    · exact ⟨_, classify_spec _ (fun m h => by cases h; exact hm)⟩
+/-- T20.3 totality: every media type gets one of the six classes -/
+theorem classification_total (mt : Option Cps) : ∃ c : MClass, textTypeByMediaType mt = c.code :=
+  ⟨_, classify_spec mt⟩
 
 /-- the default encoding of a media type is the documented one of its class: UTF-8 for the application/xml family,
 ASCII for the text/xml family, ISO-8859-1 for text/html and other text types, UTF-8 for text/css, none otherwise -/
-theorem default_encoding_spec (mt : Option Cps) (h : NotRegexLiteral mt) :
-    encodingByMediaType mt = specDefault (specClass mt) := by
+theorem default_encoding_spec (mt : Option Cps) : encodingByMediaType mt = specDefault (specClass mt) := by
   unfold encodingByMediaType
-  rw [classify_spec mt h, defaults_spec]
+  rw [classify_spec mt, defaults_spec]
 
-/-- the guard is satisfiable, and the classes are all inhabited by documented names (tests, not theorems) -/
-example : NotRegexLiteral (some (cps " Application/RSS+XML ")) := by intro m h; cases h; decide
+/-- the classes are all inhabited by documented names (tests, not theorems) -/
 example : textTypeByMediaType (some (cps " Application/RSS+XML ")) = MClass.appXml.code := by decide
 example : textTypeByMediaType (some (cps "text/xml-external-parsed-entity")) = MClass.textXml.code := by decide
 example : textTypeByMediaType (some (cps "TEXT/html")) = MClass.html.code := by decide
@@ -78,7 +64,7 @@ ASCII for the text/xml family (the XML declaration plays no role); ISO-8859-1 fo
 nothing otherwise. For every response, document (text or bytes, or read from the response), meta-sniffer result
 and `tryEncodings` answer. -/
 theorem encoding_spec (resp : Option Resp) (text : Option Cps) (m : MetaRaw) (t : Option Cps) (i : Info)
-    (g : RespOk resp) (h : getEncodingInfo resp text m t = .ok i) :
+    (h : getEncodingInfo resp text m t = .ok i) :
     ∃ txt, effText resp text = .ok txt ∧
       i.encoding =
         if truthy i.httpEncoding = true then i.httpEncoding else
@@ -92,15 +78,15 @@ theorem encoding_spec (resp : Option Resp) (text : Option Cps) (m : MetaRaw) (t 
   obtain ⟨txt, xml, metaI, h1, _, _, rfl⟩ := getEncodingInfo_ok h
   refine ⟨txt, h1, ?_⟩
   simp only [assemble]
-  rw [typeOf_spec resp txt g]
-  exact chain_spec _ _ _ _ _ _ (fun hc ho => byMediaType_spec resp txt g hc ho)
+  rw [typeOf_spec resp txt]
+  exact chain_spec _ _ _ _ _ _ (fun hc ho => byMediaType_spec resp txt hc ho)
 
 /-- T20.1 (sources): what the three sources contribute. Transport: the charset of the message object, lower-cased.
 XML sniffing: consulted for the application/xml family (with the UTF-8 default) and for text/html (without), NOT for
 the text/xml family or anything else; its answer is `specSniff` (see T20.4). HTML meta: consulted for text/html and
 other text types only. A source that is not consulted is "not known". -/
 theorem sources_spec (resp : Option Resp) (text : Option Cps) (m : MetaRaw) (t : Option Cps) (i : Info)
-    (g : RespOk resp) (h : getEncodingInfo resp text m t = .ok i) :
+    (h : getEncodingInfo resp text m t = .ok i) :
     ∃ txt, effText resp text = .ok txt ∧
       i.httpEncoding = (match resp with
         | some r => if truthy r.charset = true then r.charset.map lower else r.charset
@@ -116,11 +102,11 @@ theorem sources_spec (resp : Option Resp) (text : Option Cps) (m : MetaRaw) (t :
   obtain ⟨txt, xml, metaI, h1, h2, h3, rfl⟩ := getEncodingInfo_ok h
   refine ⟨txt, h1, ?_, ?_, ?_⟩
   · cases resp <;> simp [assemble, httpOf, getHTTPInfo]
-  · rw [typeOf_spec resp txt g, xmlOf_spec] at h2
+  · rw [typeOf_spec resp txt, xmlOf_spec] at h2
     simp only [assemble]
     injection h2 with h2
     exact h2.symm
-  · rw [typeOf_spec resp txt g, metaOf_spec] at h3
+  · rw [typeOf_spec resp txt, metaOf_spec] at h3
     simp only [assemble]
     cases hc : docClass resp txt <;> simp only [hc] at h3 ⊢
     case html => exact getMetaInfo_charset h3
@@ -128,8 +114,7 @@ theorem sources_spec (resp : Option Resp) (text : Option Cps) (m : MetaRaw) (t :
     all_goals (injection h3 with h3; rw [← h3])
 
 /-- the answer of `tryEncodings` can never reach the result (the call at `:628` is dead for the current defaults table) -/
-theorem tryEncodings_unreachable (resp : Option Resp) (text : Option Cps) (m : MetaRaw) (t1 t2 : Option Cps)
-    (g : RespOk resp) : getEncodingInfo resp text m t1 = getEncodingInfo resp text m t2 := by
+theorem tryEncodings_unreachable (resp : Option Resp) (text : Option Cps) (m : MetaRaw) (t1 t2 : Option Cps) : getEncodingInfo resp text m t1 = getEncodingInfo resp text m t2 := by
   unfold getEncodingInfo
   cases effText resp text with
   | error e => rfl
@@ -143,8 +128,8 @@ theorem tryEncodings_unreachable (resp : Option Resp) (text : Option Cps) (m : M
       | error e => rfl
       | ok metaI =>
         simp only [assemble, Except.ok.injEq, Info.mk.injEq, and_true, true_and]
-        rw [typeOf_spec resp txt g, chain_spec _ _ _ _ _ t1 (fun hc ho => byMediaType_spec resp txt g hc ho),
-          chain_spec _ _ _ _ _ t2 (fun hc ho => byMediaType_spec resp txt g hc ho)]
+        rw [typeOf_spec resp txt, chain_spec _ _ _ _ _ t1 (fun hc ho => byMediaType_spec resp txt hc ho),
+          chain_spec _ _ _ _ _ t2 (fun hc ho => byMediaType_spec resp txt hc ho)]
 
 /-! ## T20.2 — the mismatch flag -/
 
@@ -162,10 +147,10 @@ theorem mismatch_iff (resp : Option Resp) (text : Option Cps) (m : MetaRaw) (t :
 /-- "No mismatch possible" (docstring) for the text/xml family, text/css, non-text types and documents without any
 transport information that do not look like XML: only one source is consulted there -/
 theorem no_mismatch_possible (resp : Option Resp) (text : Option Cps) (m : MetaRaw) (t : Option Cps) (i : Info)
-    (g : RespOk resp) (h : getEncodingInfo resp text m t = .ok i) (txt : Cps) (ht : effText resp text = .ok txt)
+    (h : getEncodingInfo resp text m t = .ok i) (txt : Cps) (ht : effText resp text = .ok txt)
     (hc : docClass resp txt = .textXml ∨ docClass resp txt = .css ∨ docClass resp txt = .other) :
     i.mismatch = false := by
-  obtain ⟨txt', h1, _, hx, hm⟩ := sources_spec resp text m t i g h
+  obtain ⟨txt', h1, _, hx, hm⟩ := sources_spec resp text m t i h
   rw [ht] at h1; injection h1 with h1; subst h1
   have hxn : i.xmlEncoding = none := by rcases hc with hc | hc | hc <;> simp [hx, hc]
   have hmn : i.metaEncoding = none := by rcases hc with hc | hc | hc <;> simp [hm, hc]
@@ -179,10 +164,10 @@ theorem no_mismatch_possible (resp : Option Resp) (text : Option Cps) (m : MetaR
 
 /-- the reported encoding is lower-case (ASCII and Latin-1 letters; see the assumptions for other scripts) -/
 theorem encoding_lower (resp : Option Resp) (text : Option Cps) (m : MetaRaw) (t : Option Cps) (i : Info)
-    (g : RespOk resp) (h : getEncodingInfo resp text m t = .ok i) (e : Cps) (he : i.encoding = some e) :
+    (h : getEncodingInfo resp text m t = .ok i) (e : Cps) (he : i.encoding = some e) :
     lower e = e := by
-  obtain ⟨txt, h1, hE⟩ := encoding_spec resp text m t i g h
-  obtain ⟨txt', h1', hH, hX, hM⟩ := sources_spec resp text m t i g h
+  obtain ⟨txt, h1, hE⟩ := encoding_spec resp text m t i h
+  obtain ⟨txt', h1', hH, hX, hM⟩ := sources_spec resp text m t i h
   rw [h1] at h1'; injection h1' with h1'; subst h1'
   -- every source is lower-case
   have lowH : ∀ x, i.httpEncoding = some x → lower x = x := by
@@ -227,15 +212,7 @@ theorem encoding_lower (resp : Option Resp) (text : Option Cps) (m : MetaRaw) (t
     · exact lowSniff _ _ hx
     · exact lowSniff _ _ hx
     · exact absurd hx (by simp)
-  have lowMeta : ∀ x, metaCharset m = some x → lower x = x := by
-    intro x hx
-    unfold metaCharset at hx
-    split at hx
-    · injection hx with hx; subst hx
-      split
-      · rename_i s hs; simp at hs; subst hs; rfl
-      · exact lower_idem _
-    · exact absurd hx (by simp)
+  have lowMeta : ∀ x, metaCharset m = some x → lower x = x := fun x hx => metaCharset_lower m x hx
   have lowM : ∀ x, i.metaEncoding = some x → lower x = x := by
     intro x hx
     rw [hM] at hx
@@ -292,33 +269,39 @@ theorem sniff_bom_rows (c d : Nat) (t : Cps) (incl : Bool) :
       simp [this]
     simp [specSniff, this]
 
-/-- T20.4 position: whenever the sniffer returns (on any file object: text or binary, any position) the stream
-stands where it stood and holds what it held -/
-theorem sniff_position_restored (fp : Stream) (incl : Bool) (r : Option Cps)
-    (h : (detectXMLStream fp incl).out = .ok r) : (detectXMLStream fp incl).fp = fp := by
+/-- T20.4 position: on every file object — text or binary, any content, any position — and on every way out,
+the exception included, the stream stands where it stood and holds what it held (full strength since the fix
+"restores the file position when it raises ValueError") -/
+theorem sniff_position_restored (fp : Stream) (incl : Bool) : (detectXMLStream fp incl).fp = fp := by
   obtain ⟨c, p, b⟩ := fp
-  cases b with
-  | true =>
-    by_cases hc : c = []
-    · subst hc
-      simp [detectXMLStream, C20.bomRead] at h
-    · rw [detectXMLStream_binary c p incl hc] at h; simp at h
-  | false =>
-    by_cases hl : c.length < 4
-    · rw [detectXMLStream_short ⟨c, p, false⟩ incl rfl hl] at h; simp at h
-    · match c, hl with
-      | b1 :: b2 :: b3 :: b4 :: t, _ => rw [detectXMLStream_long]
-      | [], hl => simp at hl
-      | [_], hl => simp at hl
-      | [_, _], hl => simp at hl
-      | [_, _, _], hl => simp at hl
+  by_cases hl : c.length < 4
+  · rw [detectXMLStream_short ⟨c, p, b⟩ incl hl]
+  · match c, hl with
+    | b1 :: b2 :: b3 :: b4 :: t, _ => rw [detectXMLStream_long]
+    | [], hl => simp at hl
+    | [_], hl => simp at hl
+    | [_, _], hl => simp at hl
+    | [_, _, _], hl => simp at hl
 
-/-- T20.4 totality, PARTIAL: a text file object (or `str`/`bytes` document) with at least four characters always
-gets an answer, and with `includeDefault` the answer is an encoding. -/
-theorem sniff_total_partial (fp : Stream) (incl : Bool) (hb : fp.binary = false) (hl : 4 ≤ fp.content.length) :
+/-- a binary file object is sniffed exactly like a text file object with the same content (since the fix
+"detectXMLEncoding accepts a binary file object"; before, every non-empty binary file raised TypeError) -/
+theorem sniff_binary_same (c : Cps) (p : Nat) (incl : Bool) :
+    (detectXMLStream ⟨c, p, true⟩ incl).out = (detectXMLStream ⟨c, p, false⟩ incl).out := by
+  by_cases hl : c.length < 4
+  · rw [detectXMLStream_short ⟨c, p, true⟩ incl hl, detectXMLStream_short ⟨c, p, false⟩ incl hl]
+  · match c, hl with
+    | b1 :: b2 :: b3 :: b4 :: t, _ => rw [detectXMLStream_long, detectXMLStream_long]
+    | [], hl => simp at hl
+    | [_], hl => simp at hl
+    | [_, _], hl => simp at hl
+    | [_, _, _], hl => simp at hl
+
+/-- T20.4 totality, PARTIAL: every file object (text or binary) and every `str`/`bytes` document with at least four
+characters gets an answer, and with `includeDefault` the answer is an encoding. -/
+theorem sniff_total_partial (fp : Stream) (incl : Bool) (hl : 4 ≤ fp.content.length) :
     ∃ r, (detectXMLStream fp incl).out = .ok r ∧ (incl = true → r ≠ none) := by
   obtain ⟨c, p, b⟩ := fp
-  simp only at hb hl; subst hb
+  simp only at hl
   match c, hl with
   | b1 :: b2 :: b3 :: b4 :: t, _ =>
     rw [detectXMLStream_long]
@@ -334,33 +317,44 @@ theorem sniff_total_partial (fp : Stream) (incl : Bool) (hb : fp.binary = false)
   | [_, _], hl => simp at hl
   | [_, _, _], hl => simp at hl
 
-/- Full statement — FALSE on the current tree (known findings C20-xml-short, C20-xml-binary-file):
+/- Full statement — FALSE on the current tree (known finding C20-xml-short; the answers for documents shorter than
+four characters are pinned by two rows of test_encutils):
    theorem sniff_total (fp : Stream) (incl : Bool) :
-     ∃ r, detectXMLStream fp incl = ⟨.ok r, fp⟩ ∧ (incl = true → r ≠ none)
-   The two theorems below prove its negation on the whole excluded region. -/
+     ∃ r, (detectXMLStream fp incl).out = .ok r ∧ (incl = true → r ≠ none)
+   The theorem below proves its negation on the whole excluded region. -/
 
 /-- finding C20-xml-short, machine-checked on the whole region: with fewer than four characters the sniffer raises
-`ValueError` (tuple unpacking) instead of answering UTF-8, and leaves the stream at the end of the data -/
-theorem sniff_short_raises (fp : Stream) (incl : Bool) (hb : fp.binary = false) (hl : fp.content.length < 4) :
-    (detectXMLStream fp incl).out = .error .valueError ∧ (detectXMLStream fp incl).fp.pos = fp.content.length := by
-  rw [detectXMLStream_short fp incl hb hl]; exact ⟨rfl, rfl⟩
-
-/-- finding C20-xml-binary-file, machine-checked on the whole region: for a binary file object with any content the
-sniffer raises `TypeError` (`ord` of an `int`) and leaves the stream after the bytes it read -/
-theorem sniff_binary_raises (c : Cps) (p : Nat) (incl : Bool) (hc : c ≠ []) :
-    (detectXMLStream ⟨c, p, true⟩ incl).out = .error .typeError ∧
-    (detectXMLStream ⟨c, p, true⟩ incl).fp.pos = min 4 c.length := by
-  rw [detectXMLStream_binary c p incl hc]; exact ⟨rfl, rfl⟩
+`ValueError` (tuple unpacking) instead of answering UTF-8 (the stream is left untouched, see above) -/
+theorem sniff_short_raises (fp : Stream) (incl : Bool) (hl : fp.content.length < 4) :
+    (detectXMLStream fp incl).out = .error .valueError := by
+  rw [detectXMLStream_short fp incl hl]
 
 /-! ### what "the declared encoding" is for the pattern (`xmlDeclPattern`, matched on the first 2048 characters) -/
 
-/-- T20.4 soundness of the declaration scan [W2]: whatever the pattern returns is the quoted, non-empty, quote-free
-value that follows `encoding=` on the first line of a text that starts with `<?xml`, and `?>` follows on that line.
-Nothing is invented; in particular a document that does not start with `<?xml` has no declared encoding. -/
-theorem decl_sound (buf e : Cps) (h : declMatch buf = some e) :
-    ∃ v q1 q2 w rest, buf = cps "<?xml" ++ v ++ cps "encoding=" ++ [q1] ++ e ++ [q2] ++ w ++ cps "?>" ++ rest ∧
-      v ≠ [] ∧ 10 ∉ v ∧ isQuote q1 ∧ e ≠ [] ∧ (∀ c ∈ e, ¬ isQuote c) ∧ isQuote q2 ∧ 10 ∉ w :=
-  declMatch_sound buf e h
+/-- T20.4 the declaration pattern, characterised exactly (sound and complete, for every text): it returns `e` iff
+the text is `<?xml` S `version` S? `=` S? q ver q S `encoding` S? `=` S? q **e** q tail `?>` rest, where S is
+non-empty white space (line breaks included), S? possibly empty white space, the q are quotes, `ver` and `e` contain
+no quote, `e` is not empty, and `tail` contains neither `?` nor `>`. In particular a legal declaration that continues
+on the next line or has white space around `=` is found, and an `encoding=` that is not the second attribute of the
+declaration is not (the former findings C20-xmldecl-whitespace and C20-xmldecl-stray-attribute). -/
+theorem decl_iff (buf e : Cps) :
+    declMatch buf = some e ↔
+      ∃ w1 w2 w3 qa ver qb w4 w5 w6 q1 q2 tail rest,
+        buf = cps "<?xml" ++ w1 ++ cps "version" ++ w2 ++ cps "=" ++ w3 ++ [qa] ++ ver ++ [qb] ++ w4 ++
+          cps "encoding" ++ w5 ++ cps "=" ++ w6 ++ [q1] ++ e ++ [q2] ++ tail ++ cps "?>" ++ rest ∧
+        AllWs w1 ∧ w1 ≠ [] ∧ AllWs w2 ∧ AllWs w3 ∧ isQuote qa ∧ NoQuote ver ∧ isQuote qb ∧ AllWs w4 ∧ w4 ≠ [] ∧
+        AllWs w5 ∧ AllWs w6 ∧ isQuote q1 ∧ e ≠ [] ∧ NoQuote e ∧ isQuote q2 ∧ NoEnd tail := by
+  constructor
+  · exact declMatch_sound buf e
+  · rintro ⟨w1, w2, w3, qa, ver, qb, w4, w5, w6, q1, q2, tail, rest, hbuf, h1, n1, h2, h3, ha, hv, hb, h4, n4, h5, h6,
+      hq1, he, hne, hq2, ht⟩
+    rw [hbuf]
+    exact declMatch_complete w1 w2 w3 qa ver qb w4 w5 w6 q1 e q2 tail rest h1 n1 h2 h3 ha hv hb h4 n4 h5 h6 hq1 he hne
+      hq2 ht
+
+/-- the backtracking pattern is deterministic: it agrees, on every text, with a left-to-right scan that takes the
+longest run for every repetition (`specDecl`) -/
+theorem decl_deterministic (buf : Cps) : declMatch buf = specDecl buf := declMatch_spec buf
 
 /-- "else UTF-8": a document of at least four characters without BOM that does not start with `<?xml` is UTF-8 -/
 theorem sniff_default (b1 b2 b3 b4 : Nat) (t : Cps) (incl : Bool) (hb : specBom b1 b2 b3 b4 = none)
@@ -373,51 +367,80 @@ theorem sniff_default (b1 b2 b3 b4 : Nat) (t : Cps) (incl : Bool) (hb : specBom 
     | cons b5 t => simp only [List.take_succ_cons]; simpa [cps, List.isPrefixOf] using hx
   simp only [declMatch_none_of_no_prefix _ this]
 
-/-- T20.4 completeness of the declaration scan on single-line declarations [W2]: if the text is
-`<?xml` v `encoding=` q₁ e q₂ w `?>` rest with v, w free of line feeds, e non-empty and free of quotes, and no other
-`encoding=`+quote starts inside v, then e is what the pattern returns — whatever follows. -/
-theorem decl_complete (v e w rest : Cps) (q1 q2 : Nat) (hv : v ≠ []) (hvlf : 10 ∉ v) (hq1 : isQuote q1)
-    (he : e ≠ []) (heq : ∀ c ∈ e, ¬ isQuote c) (hq2 : isQuote q2) (hw : 10 ∉ w)
-    (hfirst : earlierCandidate v q1 = false) :
-    declMatch (cps "<?xml" ++ v ++ cps "encoding=" ++ [q1] ++ e ++ [q2] ++ w ++ cps "?>" ++ rest) = some e :=
-  declMatch_complete v e w rest q1 q2 hv hvlf hq1 he heq hq2 hw hfirst
-
-/-- the canonical declaration, end to end: for every non-empty quote-free name `e` that leaves the declaration within
-the first 2048 characters, and every continuation, `<?xml version="1.0" encoding="e"?>…` is sniffed as `lower e` -/
-theorem sniff_canonical_declaration (e rest : Cps) (incl : Bool) (he : e ≠ []) (heq : ∀ c ∈ e, ¬ isQuote c)
-    (hlen : e.length ≤ 2000) :
-    detectXML (cps "<?xml version=\"1.0\" encoding=\"" ++ e ++ cps "\"?>" ++ rest) incl = .ok (some (lower e)) := by
-  have hsplit : cps "<?xml version=\"1.0\" encoding=\"" ++ e ++ cps "\"?>" ++ rest =
-      cps "<?xml" ++ cps " version=\"1.0\" " ++ cps "encoding=" ++ [34] ++ e ++ [34] ++ [] ++ cps "?>" ++ rest := by
-    have : cps "<?xml version=\"1.0\" encoding=\"" = cps "<?xml" ++ cps " version=\"1.0\" " ++ cps "encoding=" ++ [34] := by
-      decide
-    have h2 : cps "\"?>" = [34] ++ cps "?>" := by decide
-    rw [this, h2]; simp [List.append_assoc]
-  have hm : ∀ r, declMatch (cps "<?xml" ++ cps " version=\"1.0\" " ++ cps "encoding=" ++ [34] ++ e ++ [34] ++ [] ++
-      cps "?>" ++ r) = some e := fun r =>
-    declMatch_complete _ e [] r 34 34 (by decide) (by decide) (Or.inl rfl) he heq (Or.inl rfl) (by simp) (by decide)
-  rw [hsplit]
-  generalize hd : cps "<?xml" ++ cps " version=\"1.0\" " ++ cps "encoding=" ++ [34] ++ e ++ [34] ++ [] ++ cps "?>" = d
-  have hdl : d.length ≤ 2048 := by
-    rw [← hd]; simp only [List.length_append, List.length_nil, List.length_singleton]
-    have a1 : (cps "<?xml").length = 5 := by decide
-    have a2 : (cps " version=\"1.0\" ").length = 15 := by decide
-    have a3 : (cps "encoding=").length = 9 := by decide
-    have a4 : (cps "?>").length = 2 := by decide
-    omega
+/-- "else the declared encoding", end to end: a document that starts with a declaration of the shape of `decl_iff`
+which ends within the first 2048 characters is sniffed as `lower e`, whatever follows -/
+theorem sniff_declared (w1 w2 w3 : Cps) (qa : Nat) (ver : Cps) (qb : Nat) (w4 w5 w6 : Cps) (q1 : Nat) (e : Cps)
+    (q2 : Nat) (tail rest : Cps) (incl : Bool)
+    (h1 : AllWs w1) (n1 : w1 ≠ []) (h2 : AllWs w2) (h3 : AllWs w3) (ha : isQuote qa) (hv : NoQuote ver)
+    (hb : isQuote qb) (h4 : AllWs w4) (n4 : w4 ≠ []) (h5 : AllWs w5) (h6 : AllWs w6) (hq1 : isQuote q1)
+    (he : e ≠ []) (hne : NoQuote e) (hq2 : isQuote q2) (ht : NoEnd tail)
+    (hfit : (cps "<?xml" ++ w1 ++ cps "version" ++ w2 ++ cps "=" ++ w3 ++ [qa] ++ ver ++ [qb] ++ w4 ++
+      cps "encoding" ++ w5 ++ cps "=" ++ w6 ++ [q1] ++ e ++ [q2] ++ tail ++ cps "?>").length ≤ 2048) :
+    detectXML (cps "<?xml" ++ w1 ++ cps "version" ++ w2 ++ cps "=" ++ w3 ++ [qa] ++ ver ++ [qb] ++ w4 ++
+      cps "encoding" ++ w5 ++ cps "=" ++ w6 ++ [q1] ++ e ++ [q2] ++ tail ++ cps "?>" ++ rest) incl =
+        .ok (some (lower e)) := by
+  generalize hd : cps "<?xml" ++ w1 ++ cps "version" ++ w2 ++ cps "=" ++ w3 ++ [qa] ++ ver ++ [qb] ++ w4 ++
+      cps "encoding" ++ w5 ++ cps "=" ++ w6 ++ [q1] ++ e ++ [q2] ++ tail ++ cps "?>" = d at hfit ⊢
+  have hm : ∀ r, declMatch (d ++ r) = some e := fun r => by
+    rw [← hd]
+    exact declMatch_complete w1 w2 w3 qa ver qb w4 w5 w6 q1 e q2 tail r h1 n1 h2 h3 ha hv hb h4 n4 h5 h6 hq1 he hne hq2 ht
   have hx : cps "<?xml" = 60 :: 63 :: 120 :: 109 :: [108] := by decide
   obtain ⟨t, hdt⟩ : ∃ t, d = 60 :: 63 :: 120 :: 109 :: t := by
     rw [← hd, hx]; simp only [List.cons_append]; exact ⟨_, rfl⟩
   have hbom : specBom 60 63 120 109 = none := by decide
   have hcons : d ++ rest = 60 :: 63 :: 120 :: 109 :: (t ++ rest) := by rw [hdt]; rfl
-  rw [hcons, xml_sniff_spec, hbom, ← hcons, take_append_le d rest 2048 hdl, ← hd, hm]
+  rw [hcons, xml_sniff_spec, hbom, ← hcons, take_append_le d rest 2048 hfit, hm]
 
-/-- the two declaration findings, machine-checked at their witnesses (tests): a legal declaration that continues on
-the next line is missed; an element attribute after a declaration without encoding is taken for the declaration -/
-theorem decl_linefeed_missed :
-    detectXML (cps "<?xml version=\"1.0\"\nencoding=\"iso-8859-1\"?><a/>") true = .ok (some (cps "utf-8")) := by decide
-theorem decl_stray_attribute_found :
-    detectXML (cps "<?xml version=\"1.0\"?><x encoding=\"ascii\"/><?pi ?>") true = .ok (some (cps "ascii")) := by decide
+/-- the canonical declaration: `<?xml version="1.0" encoding="e"?>…` is sniffed as `lower e`, for every non-empty
+quote-free `e` of at most 2000 characters and every continuation -/
+theorem sniff_canonical_declaration (e rest : Cps) (incl : Bool) (he : e ≠ []) (heq : NoQuote e)
+    (hlen : e.length ≤ 2000) :
+    detectXML (cps "<?xml version=\"1.0\" encoding=\"" ++ e ++ cps "\"?>" ++ rest) incl = .ok (some (lower e)) := by
+  have hsplit : cps "<?xml version=\"1.0\" encoding=\"" ++ e ++ cps "\"?>" ++ rest =
+      cps "<?xml" ++ [32] ++ cps "version" ++ [] ++ cps "=" ++ [] ++ [34] ++ cps "1.0" ++ [34] ++ [32] ++
+        cps "encoding" ++ [] ++ cps "=" ++ [] ++ [34] ++ e ++ [34] ++ [] ++ cps "?>" ++ rest := by
+    have h1 : cps "<?xml version=\"1.0\" encoding=\"" = cps "<?xml" ++ [32] ++ cps "version" ++ [] ++ cps "=" ++ [] ++
+        [34] ++ cps "1.0" ++ [34] ++ [32] ++ cps "encoding" ++ [] ++ cps "=" ++ [] ++ [34] := by decide
+    have h2 : cps "\"?>" = [34] ++ cps "?>" := by decide
+    rw [h1, h2]; simp [List.append_assoc]
+  rw [hsplit]
+  refine sniff_declared [32] [] [] 34 (cps "1.0") 34 [32] [] [] 34 e 34 [] rest incl (by decide) (by decide)
+    (by decide) (by decide) (Or.inl rfl) (by decide) (Or.inl rfl) (by decide) (by decide) (by decide) (by decide)
+    (Or.inl rfl) he heq (Or.inl rfl) (by intro c hc; simp at hc) ?_
+  simp only [List.length_append, List.length_nil, List.length_singleton]
+  have a1 : (cps "<?xml").length = 5 := by decide
+  have a2 : (cps "version").length = 7 := by decide
+  have a3 : (cps "=").length = 1 := by decide
+  have a4 : (cps "1.0").length = 3 := by decide
+  have a5 : (cps "encoding").length = 8 := by decide
+  have a6 : (cps "?>").length = 2 := by decide
+  omega
+
+/-- no encoding declared: after `<?xml version="1.0"?>` nothing that follows — an element with an `encoding`
+attribute, another processing instruction — is taken for the declared encoding -/
+theorem sniff_no_encoding_declared (rest : Cps) (incl : Bool) :
+    detectXML (cps "<?xml version=\"1.0\"?>" ++ rest) incl = .ok (if incl then some (cps "utf-8") else none) := by
+  have hx : cps "<?xml version=\"1.0\"?>" = 60 :: 63 :: 120 :: 109 :: cps "l version=\"1.0\"?>" := by decide
+  have hcons : cps "<?xml version=\"1.0\"?>" ++ rest = 60 :: 63 :: 120 :: 109 :: (cps "l version=\"1.0\"?>" ++ rest) := by
+    rw [hx]; rfl
+  have hbom : specBom 60 63 120 109 = none := by decide
+  have hn : ∀ r, declMatch (cps "<?xml version=\"1.0\"?>" ++ r) = none := fun r => by
+    rw [declMatch_spec]; rfl
+  rw [hcons, xml_sniff_spec, hbom, ← hcons, take_append_le _ rest 2048 (by decide), hn]
+
+/-- the two former declaration findings at their witnesses, now the right way round (tests): a legal declaration that
+continues on the next line is found; an element attribute after a declaration without encoding is ignored; another
+processing instruction whose target starts with `xml` is not a declaration -/
+theorem decl_linefeed_found :
+    detectXML (cps "<?xml version=\"1.0\"\nencoding=\"iso-8859-1\"?><a/>") true = .ok (some (cps "iso-8859-1")) := by
+  decide
+theorem decl_eq_space_found :
+    detectXML (cps "<?xml version = '1.0' encoding\t=\r\n'X-Enc' standalone='yes' ?>") true = .ok (some (cps "x-enc")) := by
+  decide
+theorem decl_stray_attribute_ignored :
+    detectXML (cps "<?xml version=\"1.0\"?><x encoding=\"ascii\"/><?pi ?>") true = .ok (some (cps "utf-8")) ∧
+    detectXML (cps "<?xml-stylesheet href=\"a\" encoding=\"pi\"?>") true = .ok (some (cps "utf-8")) := by
+  decide
 
 /-- consequence of C20-xml-short at the level of `getEncodingInfo`: an application/xml response without charset and
 a document of three characters is reported as "no encoding" where the documented rule says UTF-8 (test, not theorem) -/
@@ -427,7 +450,6 @@ example : (getEncodingInfo (some ⟨some (cps "application/xml"), none, none⟩)
     (·.encoding) = .ok (some (cps "utf-8")) := by decide
 
 /-- non-vacuity of the hypotheses used above (tests) -/
-example : RespOk (some ⟨some (cps "text/html"), some (cps "ISO-H"), none⟩) := by intro m h; cases h; decide
 example : (getEncodingInfo (some ⟨some (cps "text/html"), some (cps "ISO-H"), none⟩)
     (some (cps "<meta http-equiv='Content-Type' content='text/html;charset=iso-m'>")) (.found (cps "text/html") (.str (cps "ISO-M"))) none).map
     (fun i => (i.encoding, i.mismatch)) = .ok (some (cps "iso-h"), true) := by decide
